@@ -463,7 +463,14 @@ where
         m: &AssignedBigUint<F>,
     ) -> Result<AssignedBigUint<F>, Error> {
         if n == 0 {
-            return self.assign_fixed_biguint(layouter, BigUint::one());
+            // x^0 mod m = 1 mod m (which is 0 when m = 1).
+            let one = self.assign_fixed_biguint(layouter, BigUint::one())?;
+            return Ok(self.div_rem(layouter, &one, m)?.1);
+        }
+
+        if n == 1 {
+            // The loop below only reduces through `mod_mul`, which is never called for n = 1.
+            return Ok(self.div_rem(layouter, x, m)?.1);
         }
 
         let mut n = n;
